@@ -56,7 +56,7 @@ func (c *clientSide) Call() ([]byte, status.Status) {
 		return nil, st
 	}
 	switch c.kind {
-	case "unary":
+	case "unary", "probe":
 		defer c.r.Free()
 		res, st := c.cl.Request(c.ctx(), preq)
 		if !st.OK() {
@@ -131,6 +131,9 @@ func main() {
 		}
 		call := req.Calls().Get(0)
 		method := call.Method().Unwrap()
+		if method == "probe" {
+			return ref.NewNoop(msg("probe", 0)), status.OK // not part of any script: is the client usable again?
+		}
 		sc := rt.Enter(method, call.Input().Raw())
 		c := async.TimeoutContext(svcrt.OpTimeout)
 		out, st := sc.Loop(svcrt.ServerOps{
@@ -168,10 +171,33 @@ func main() {
 		os.Exit(2)
 	}
 	clg := mpxh.NewCapLogger()
-	cl := rpc.NewClient(srv.Address(), mpx.ClientMode_OnDemand, clg, opts)
+	px, err := newCutProxy(srv.Address())
+	if err != nil {
+		fmt.Fprintln(os.Stderr, "harness error:", err)
+		os.Exit(2)
+	}
+	defer px.close()
+	rt.Drop = px.cutAll
+	cl := rpc.NewClient(px.addr(), mpx.ClientMode_OnDemand, clg, opts)
 	defer cl.Close()
+	// after a lost connection the on-demand client must succeed again on its next calls
+	recovered := func() bool {
+		var last status.Status
+		for try := 0; try < 5; try++ {
+			cs := &clientSide{cl: cl, kind: "unary", req: msg("probe", try)}
+			cs.kind = "probe"
+			_, st := cs.Call()
+			if st.OK() {
+				return true
+			}
+			last = st
+			time.Sleep(10 * time.Millisecond)
+		}
+		fmt.Fprintln(os.Stderr, "probe:", last)
+		return false
+	}
 	enc := json.NewEncoder(os.Stdout)
-	nMis, steps := 0, 0
+	nMis, steps, lostScripts := 0, 0, 0
 	bySig := map[string]int{}
 	byKind := map[string]int{}
 	for i, s := range scripts {
@@ -193,6 +219,16 @@ func main() {
 		})
 		byKind[s.Kind]++
 		steps += len(s.Script)
+		for _, st := range s.Script {
+			if st.Who == "x" {
+				lostScripts++
+				if !recovered() {
+					nMis++
+					bySig["no-recovery"]++
+					enc.Encode(Outcome{Case: i, Sig: "no-recovery", Detail: "after a script in which the connection was lost the client did not complete a call in 5 tries", Sched: s.String()})
+				}
+			}
+		}
 	}
 	for _, p := range mpxh.Panics(clg.Take()) {
 		nMis++
@@ -208,7 +244,7 @@ func main() {
 		nMis++
 		enc.Encode(Outcome{Sig: "stray-handler-run", Detail: "handler " + m + " ran outside any script"})
 	}
-	enc.Encode(map[string]any{"summary": map[string]any{"scripts": len(scripts), "of": total, "steps": steps, "mismatches": nMis, "by_sig": bySig, "by_kind": byKind}})
+	enc.Encode(map[string]any{"summary": map[string]any{"scripts": len(scripts), "of": total, "steps": steps, "mismatches": nMis, "by_sig": bySig, "by_kind": byKind, "lost": lostScripts}})
 }
 
 func containsAny(s string, subs ...string) bool {
